@@ -57,19 +57,20 @@ func (op Operator) Format(out io.Writer) error {
 			slices.Sort(keys)
 			for _, key := range keys {
 				val := dict[key]
-				if _, err := out.Write([]byte("/")); err != nil {
-					return err
+				if val == nil {
+					// a nil entry is an absent entry; "/Key" without a value
+					// would take the next key as its value
+					continue
 				}
-				if _, err := out.Write([]byte(key)); err != nil {
+				// the key may need escaping, like any other name
+				if err := pdf.Format(out, pdf.OptContentStream, key); err != nil {
 					return err
 				}
 				if _, err := out.Write([]byte(" ")); err != nil {
 					return err
 				}
-				if natVal, ok := val.(pdf.Native); ok {
-					if err := pdf.Format(out, pdf.OptContentStream, natVal); err != nil {
-						return err
-					}
+				if err := pdf.Format(out, pdf.OptContentStream, val); err != nil {
+					return err
 				}
 				if _, err := out.Write([]byte("\n")); err != nil {
 					return err
